@@ -32,6 +32,9 @@ TITLES = ['S', 'Sheet 2', "it's", 'A1', 'SUM', 'Лист', 'x!y', '{0}', "quote'
 CONSTANTS = [0, -1, 2 ** 70, 1.5, -0.0, 1e300, True, False, '', 'x', "it's", 'a\\', '{x}', '{titles}', 'tab\t', 'nl\n', 'eval(1)', 'é✓', "'''", '"""', '\\n']
 
 
+PROBE = [('Main', [['=B1*5', 2, '=SUM(A1:B1)']])]
+
+
 def outcome_of_translate(sheets, entry):
     try:
         return 'ok', realcode.translate(sheets, entry=entry)
@@ -130,6 +133,7 @@ def run(tier, seed):
                 seen.add(f)
                 formulas.append(f)
     peg_cases, memo_cases = [], []
+    probe_base = outcome_of_translate(PROBE, None)
     from excel2pycl.src.tokens.composite_base_token import CompositeBaseToken
     get_calls = [0]
     counted_hook = hasattr(CompositeBaseToken, '_get') and hasattr(CompositeBaseToken, '_MEMO')
@@ -160,6 +164,16 @@ def run(tier, seed):
                 if o1 != o2:
                     chk.violation({'why': 'a translation that failed answers differently when asked again (nothing was changed in between)', 'formula': f,
                                    'first': o1, 'second': o2, 'stream': 'retry'})
+                # ... and the NEXT workbook is translated as if the failure had not happened: a small probe workbook (one sheet) right after a formula of a
+                # two-sheet workbook was rejected gives the class it gave at the start - one member per cell of the probe, none for cells it does not hold
+                two = [('Main', [[1, 2], [3, f]]), ('Data', [[5, 6, 7]] * 8)]
+                if outcome_of_translate(two, (0, 1, 1))[0] != 'ok' or True:
+                    now = outcome_of_translate(PROBE, None)
+                    chk.count('probe-after-failure')
+                    if now != probe_base:
+                        chk.violation({'why': 'after a formula was rejected, the next workbook (a one-sheet probe: A1 = B1*5, B1 = 2, C1 = SUM(A1:B1)) is not translated into the class '
+                                              'it is translated into at the start: members / code left over from the rejected formula', 'rejected_formula': f[:300],
+                                       'probe_now': (now[0], (now[1] or '')[-400:]), 'stream': 'probe-after-failure'})
         else:
             cls = check_class(chk, text, sheets, (0, 3, 3), f)
             if cls is not None:
